@@ -150,6 +150,9 @@ ETH& add_handle(Client& c, ET&& aut, const TA& model, int alpha, uint64_t origin
 // return time; C11 then requires it to stay that value.
 ETH& add_result(const Step& s, ET&& aut, int alpha, uint64_t origin = 0) {
 	api_end();
+	// several operations return their result with the process-wide default alphabet whatever the operand's
+	// was; a client that uses its own alphabet re-attaches it before it reads symbol names
+	if (alpha > 0) aut.SetAlphabet(alpha_obj(alpha));
 	TA got = read_back(aut);
 	return add_handle(CL(s), std::move(aut), got, alpha, origin);
 }
@@ -1119,5 +1122,6 @@ void register_expl_ops() {
 	register_op("et_repeat", op_repeat); register_op("et_dump", op_dump);
 	register_abort_hook(abort_client);
 	register_final_hook(final_check);
+	register_integrity_hook([](const std::string& oracle, const std::string& site) { check_all_handles(oracle, site, "an unrelated call"); });
 }
 }
